@@ -20,7 +20,7 @@ RULE = (
 ASSUMPTIONS = ["depth <= 4, <= 7 histories per tree"]
 MIN_DECIDING = {"references_checked": 100, "child_root_vs_parent_entry": 50, "write_order_checked": 50}
 
-SKEL = ["K", "KA", "K A", "K/KK", "K/KK/KKK", "K/KK/KKK/K4", "K/sib", "S", "S/T", "S/T ", "plain", "skipdir", "skipdir/H", ".hid", ".hid/N", "dot.", "dot./x._y", "\u00fc\u65e5"]
+SKEL = ["K", "KA", "K A", "K/KK", "K/KK/KKK", "K/KK/KKK/K4", "K/sib", "S", "S/T", "S/T ", "plain", "skipdir", "skipdir/H", ".hid", ".hid/N", "dot.", "dot./x._y", "\u00fc\u65e5", "CamA", "CamB", "CamA/Clips", "CamB/Clips"]
 
 
 def budget(tier):
@@ -56,6 +56,10 @@ def run_case(cs):
     os.makedirs(root, exist_ok=True)
     cand = [s for s in dirs]
     roots = rng.sample(cand, min(len(cand), rng.randint(1, 5)))
+    if "CamA/Clips" in dirs and "CamB/Clips" in dirs and rng.random() < 0.6:
+        # same base name, same parent history, same generation number, same second: the manifest file names are equal
+        roots = [r for r in roots if r not in ("CamA", "CamB")]
+        roots = list(dict.fromkeys(roots + ["CamA/Clips", "CamB/Clips"]))
     order = rng.choice(["deep-first", "parent-first", "random"])
     seq = ["."] + roots
     if order == "deep-first":
